@@ -29,6 +29,7 @@ def run(ctx):
     r3_deep_lookup(ctx)
     r4_recursion(ctx)
     r5_selection(ctx)
+    r6_no_shared_defaults(ctx)
     r6_facade(ctx)
 
 
@@ -510,6 +511,11 @@ def _empty_tree_has_no_nodes(ctx, nd_):
     names = {src(g.iter) for n in ast.walk(rv) if isinstance(n, ast.comprehension) for g in [n]}
     return bool(names) and names <= set(over_tree) and not any(isinstance(n, ast.Constant) and n.value not in (None,) and not isinstance(n.value, bool)
                                                               for n in ast.walk(rv))
+
+
+def r6_no_shared_defaults(ctx):
+    from . import shared
+    shared.no_shared_mutable_defaults(ctx, 'R6')
 
 
 def r5_selection(ctx):
